@@ -12,7 +12,10 @@ use serde_json::json;
 use std::collections::BTreeMap;
 
 /// encode → decode → re-encode in one serde format; `sparse` = the object skips optional fields
-fn rt<T: Serialize + DeserializeOwned>(em: &mut Emitter, kind: &str, sparse: bool, x: &T) {
+fn rt<T: Serialize + DeserializeOwned + std::fmt::Debug>(em: &mut Emitter, kind: &str, sparse: bool, x: &T) {
+    // Debug forms are comparable only for types without curve points (projective coordinates are not canonical)
+    let dbg_on = matches!(kind, "CredentialSchema" | "ClaimSchema" | "ClaimValidator" | "ClaimData");
+    let dbg_x = if dbg_on { format!("{:?}", x) } else { String::new() };
     // JSON
     em.oracle_case(&format!("{} json {}", kind, em.oracle_evals));
     match call(|| serde_json::to_string(x)) {
@@ -20,6 +23,9 @@ fn rt<T: Serialize + DeserializeOwned>(em: &mut Emitter, kind: &str, sparse: boo
             Out::Ok(y) => {
                 if call(|| serde_json::to_string(&y)).ok().as_ref() != Some(&a) {
                     em.violation(&format!("c19:reencode-differs:{}:json", kind), format!("{}: JSON decode(encode(x)) re-encodes differently", kind), json!({"kind": kind, "json": a}));
+                }
+                if dbg_on && format!("{:?}", y) != dbg_x {
+                    em.violation(&format!("c19:object-changed:{}:json", kind), format!("{}: the object decoded from its own JSON form differs from the original (Debug forms differ)", kind), json!({"kind": kind, "json": a, "before": dbg_x.chars().take(600).collect::<String>(), "after": format!("{:?}", y).chars().take(600).collect::<String>()}));
                 }
             }
             Out::Err => em.violation(&format!("c19:roundtrip:{}:json", kind), format!("{}: own JSON encoding does not decode", kind), json!({"kind": kind, "json": a})),
@@ -36,6 +42,9 @@ fn rt<T: Serialize + DeserializeOwned>(em: &mut Emitter, kind: &str, sparse: boo
                 if call(|| serde_cbor::to_vec(&y)).ok().as_ref() != Some(&a) {
                     em.violation(&format!("c19:reencode-differs:{}:cbor", kind), format!("{}: CBOR decode(encode(x)) re-encodes differently", kind), json!({"kind": kind, "cbor": hexs(&a)}));
                 }
+                if dbg_on && format!("{:?}", y) != dbg_x {
+                    em.violation(&format!("c19:object-changed:{}:cbor", kind), format!("{}: the object decoded from its own CBOR form differs from the original (Debug forms differ)", kind), json!({"kind": kind, "before": dbg_x.chars().take(600).collect::<String>(), "after": format!("{:?}", y).chars().take(600).collect::<String>()}));
+                }
             }
             Out::Err => em.violation(&format!("c19:roundtrip:{}:cbor", kind), format!("{}: own CBOR encoding does not decode", kind), json!({"kind": kind, "cbor": hexs(&a)})),
             Out::Panic(m) => em.violation(&format!("c19:decode-panic:{}:cbor", kind), format!("{}: CBOR decoding panicked: {}", kind, m), json!({"kind": kind})),
@@ -49,6 +58,9 @@ fn rt<T: Serialize + DeserializeOwned>(em: &mut Emitter, kind: &str, sparse: boo
             Out::Ok(y) => {
                 if call(|| serde_bare::to_vec(&y)).ok().as_ref() != Some(&a) {
                     em.violation(&format!("c19:reencode-differs:{}:bare", kind), format!("{}: BARE decode(encode(x)) re-encodes differently", kind), json!({"kind": kind, "bare": hexs(&a)}));
+                }
+                if dbg_on && format!("{:?}", y) != dbg_x {
+                    em.violation(&format!("c19:object-changed:{}:bare", kind), format!("{}: the object decoded from its own BARE form differs from the original (Debug forms differ)", kind), json!({"kind": kind, "before": dbg_x.chars().take(600).collect::<String>(), "after": format!("{:?}", y).chars().take(600).collect::<String>()}));
                 }
                 em.count(&format!("bare:{}:{}:ok", kind, if sparse { "sparse" } else { "full" }));
             }
@@ -134,6 +146,75 @@ fn hand<T>(em: &mut Emitter, tag: &str, kind: &str, x: &T, to: impl Fn(&T) -> Ve
     c.extend_from_slice(&[0u8; 7]);
     if let Out::Panic(m) = call_opt(|| from(&c)) {
         em.violation(&format!("{}:hand-codec-panic:{}", tag, kind), format!("{}: from_bytes panicked on an extended encoding: {}", kind, m), json!({"kind": kind}));
+    }
+}
+
+/// validators with bounds at zero and at the ends of their domains, alone and inside claim / credential schemas: the
+/// decoded validator is the authored one (Debug form, hashed bytes) and judges a catalogue of claims the same way
+fn validator_catalogue(em: &mut Emitter) {
+    let vals: Vec<ClaimValidator> = vec![
+        ClaimValidator::Length { min: Some(0), max: Some(0) },
+        ClaimValidator::Length { min: Some(0), max: None },
+        ClaimValidator::Length { min: None, max: Some(0) },
+        ClaimValidator::Length { min: Some(0), max: Some(64) },
+        ClaimValidator::Length { min: Some(1), max: Some(usize::MAX) },
+        ClaimValidator::Range { min: Some(0), max: Some(0) },
+        ClaimValidator::Range { min: Some(0), max: None },
+        ClaimValidator::Range { min: None, max: Some(0) },
+        ClaimValidator::Range { min: Some(isize::MIN), max: Some(isize::MAX) },
+        ClaimValidator::Range { min: Some(-1), max: Some(1) },
+        ClaimValidator::AnyOne(vec![]),
+        ClaimValidator::AnyOne(vec![NumberClaim::from(0).into(), HashedClaim::from("").into()]),
+    ];
+    let probes: Vec<ClaimData> = vec![
+        HashedClaim::from("").into(),
+        HashedClaim::from("a").into(),
+        HashedClaim::from("x".repeat(65)).into(),
+        NumberClaim::from(0).into(),
+        NumberClaim::from(1).into(),
+        NumberClaim::from(-1).into(),
+        NumberClaim::from(isize::MIN).into(),
+        NumberClaim::from(isize::MAX).into(),
+        RevocationClaim::from("").into(),
+        ScalarClaim::from(Scalar::ZERO).into(),
+    ];
+    let hashed = |v: &ClaimValidator| -> Vec<u8> {
+        merlin::vlog::take();
+        merlin::vlog::enable(true);
+        let mut t = merlin::Transcript::new(b"v");
+        v.add_challenge_contribution(&mut t);
+        merlin::vlog::enable(false);
+        merlin::vlog::take().iter().filter(|e| e.kind == 0).flat_map(|e| [e.label.clone(), vec![0xff], e.data.clone(), vec![0xfe]].concat()).collect()
+    };
+    for v in &vals {
+        let sparse = matches!(v, ClaimValidator::Length { min: None, .. } | ClaimValidator::Length { max: None, .. } | ClaimValidator::Range { min: None, .. } | ClaimValidator::Range { max: None, .. });
+        rt(em, "ClaimValidator", sparse, v);
+        let cs = ClaimSchema { claim_type: ClaimType::Hashed, label: "x".into(), print_friendly: true, validators: vec![v.clone()] };
+        rt(em, "ClaimSchema", sparse, &cs);
+        let backs: Vec<(&str, Option<ClaimValidator>)> = vec![
+            ("json", serde_json::to_string(v).ok().and_then(|s| serde_json::from_str::<ClaimValidator>(&s).ok())),
+            ("cbor", serde_cbor::to_vec(v).ok().and_then(|s| serde_cbor::from_slice::<ClaimValidator>(&s).ok())),
+            ("bare", serde_bare::to_vec(v).ok().and_then(|s| serde_bare::from_slice::<ClaimValidator>(&s).ok())),
+        ];
+        for (fmt, back) in backs {
+            em.oracle_case(&format!("validator {:?} {}", v, fmt));
+            let w = match back {
+                Some(w) => w,
+                None => {
+                    em.count(&format!("validator:{}:undecodable", fmt));
+                    continue;
+                }
+            };
+            for c in &probes {
+                if v.is_valid(c) != w.is_valid(c) {
+                    em.violation(&format!("c19:validator-verdict-changed:{}", fmt), format!("validator {:?} judges {} as {:?}, its {} round trip as {:?}", v, crate::claims::claim_str(c), v.is_valid(c), fmt, w.is_valid(c)), json!({"validator": format!("{:?}", v), "format": fmt}));
+                    break;
+                }
+            }
+            if hashed(v) != hashed(&w) {
+                em.violation(&format!("c19:validator-hash-changed:{}", fmt), format!("validator {:?} binds other transcript bytes after a {} round trip", v, fmt), json!({"validator": format!("{:?}", v), "format": fmt}));
+            }
+        }
     }
 }
 
@@ -290,7 +371,7 @@ fn suite_objects<S: ShortGroupSignatureScheme>(em: &mut Emitter, rng: &mut Rng, 
     // presentation schemas and presentations with every statement / proof kind
     for k in 0..em.n(3, 30) {
         let mix = if k == 0 {
-            Mix { n_creds: 2, n_claims: 4, disclosed: vec![vec!["city".into()], vec!["age".into()]], revocation: true, membership: true, equality: true, commitment: Some(2), range: Some((Some(0), None)), verenc: Some((3, true)), ved: None, age: 40, shuffle: false }
+            Mix { n_creds: 2, n_claims: 4, disclosed: vec![vec!["city".into()], vec!["age".into()]], revocation: true, membership: true, equality: true, commitment: Some(2), range: Some((Some(0), None)), verenc: Some((3, true)), ved: None, age: 40, shuffle: false, zero_ssn: false }
         } else if k == 1 {
             Mix { n_creds: 1, n_claims: 5, disclosed: vec![vec!["name".into()]], ved: Some(3), commitment: Some(2), range: Some((None, Some(99))), age: 21, ..Default::default() }
         } else {
@@ -467,7 +548,15 @@ pub fn gen_c19(em: &mut Emitter, rng: &mut Rng) {
     if em.mine(1) {
         suite_objects::<Ps>(em, &mut rng.sub(2), "ps");
     }
+    // statements whose meaning sits in a keyed map: the authored association must survive every wire form
+    if em.mine(0) {
+        crate::c05::equality_positions::<Bbs>(em, &mut rng.sub(5), "bbs", "c19");
+    }
+    if em.mine(1) {
+        crate::c05::equality_positions::<Ps>(em, &mut rng.sub(6), "ps", "c19");
+    }
     if em.mine(2) {
+        validator_catalogue(em);
         hand_codecs(em, &mut rng.sub(3), "c19");
         codec_model_lines(em, &mut rng.sub(4));
     }
